@@ -3,6 +3,8 @@ import Driver.Wf
 import DoviModel.Model.Json
 import DoviModel.Model.Esc
 import DoviModel.Model.Nalu
+import DoviModel.Model.St2094
+import DoviModel.Model.RpuFile
 namespace Driver.RpuOps
 open Dovi Driver
 
@@ -31,6 +33,9 @@ def run : List String → String
   | ["rpu.class", h] => (match parseRpuEntry (unhex h) with | .ok _ => "ok" | .error => "err" | .panic => "panic")
   | ["c08.rpu", h] => cls (parseRpuEntry (unhex h))
   | ["c08.nalu", h] => cls (parseNalu (unhex h))
+  | ["c08.st2094", h] => cls (St2094.parse (unhex h))
+  | ["c08.file", h] => cls (RpuFile.parseRpuFile 100000 (unhex h))
+  | ["c08.capifile", h] => cls (RpuFile.parseRpuFile 100000 (unhex h))
   | ["c08.capi", "rpu", h] => cls (parseRpuEntry (unhex h))
   | ["c08.capi", "nalu", h] => cls (parseNalu (unhex h))
   | _ => "bad-op"
